@@ -666,6 +666,12 @@ pub fn run_case(case: &SockCase, ctx: &Ctx) -> SockRun {
                             if !got.is_empty() {
                                 findings.push((SRule::Wire, format!("emit returned an error but {} datagram(s) arrived", got.len())));
                             }
+                            if rx.is_clogged() && !rx.is_closed() && m.len() <= size_limit && e.kind != io::ErrorKind::WouldBlock {
+                                findings.push((
+                                    SRule::Wire,
+                                    format!("the receiver queue is full (the socket's error is EAGAIN/WouldBlock) but emit returned {:?}", e.kind),
+                                ));
+                            }
                             if !rx.is_closed() && !rx.is_clogged() && m.len() <= size_limit {
                                 findings.push((
                                     SRule::Wire,
@@ -699,6 +705,11 @@ pub fn run_case(case: &SockCase, ctx: &Ctx) -> SockRun {
                             }
                         }
                         Err(e) => {
+                            if rx.is_clogged() && !rx.is_closed() && m.len().max(pending_bytes) <= size_limit && e.kind != io::ErrorKind::WouldBlock {
+                                let msg = format!("the receiver queue is full (the socket's error is EAGAIN/WouldBlock) but the buffered emit returned {:?}", e.kind);
+                                findings.push((SRule::Wire, msg.clone()));
+                                findings.push((SRule::Trace(Rule::Fault), msg));
+                            }
                             if !rx.is_closed() && !rx.is_clogged() && m.len().max(pending_bytes) <= size_limit {
                                 findings.push((
                                     SRule::Wire,
@@ -755,6 +766,11 @@ pub fn run_case(case: &SockCase, ctx: &Ctx) -> SockRun {
                     Ok(Err(e)) => {
                         st.failed_calls += 1;
                         if buffered {
+                            if rx.is_clogged() && !rx.is_closed() && pending_bytes <= size_limit && e.kind() != io::ErrorKind::WouldBlock {
+                                let msg = format!("the receiver queue is full (the socket's error is EAGAIN/WouldBlock) but flush returned {:?}", e.kind());
+                                findings.push((SRule::Wire, msg.clone()));
+                                findings.push((SRule::Trace(Rule::Fault), msg));
+                            }
                             if !rx.is_closed() && !rx.is_clogged() && pending_bytes <= size_limit {
                                 findings.push((
                                     SRule::Wire,
